@@ -302,17 +302,15 @@ def reserveTxn : Txn := ⟨.reserve, [], [], [], 0⟩
 /-- the Rewrite of one group: every fragment of `t` is replaced by one fragment holding the visible rows -/
 def rewriteTxn (t : Table) (newId : Nat) : Txn := ⟨.rewrite, [], t.frags.map (·.id), t.scan, newId⟩
 
-/-- commit_compaction: with stable row ids the new fragment id is reserved by a ReserveFragments commit first (and the new
-    fragment carries it); otherwise build_manifest hands it out -/
-def compact (db : Db) (stable : Bool) : Db :=
+/-- rewrite_files / commit_compaction: the id of the new fragment is reserved by a ReserveFragments commit first
+    (`reserve_fragment_ids`: in rewrite_files without stable row ids, in commit_compaction with them) and the new fragment
+    carries it; then the Rewrite is committed.  Two versions. -/
+def compact (db : Db) : Db :=
   if compactNeeded db.latest then
-    if stable then
-      { db with log := db.log ++
-          [(reserveTxn, build db.latest reserveTxn),
-           (rewriteTxn db.latest db.latest.maxFrag,
-            build (build db.latest reserveTxn) (rewriteTxn db.latest db.latest.maxFrag))] }
-    else
-      { db with log := db.log ++ [(rewriteTxn db.latest 0, build db.latest (rewriteTxn db.latest 0))] }
+    { db with log := db.log ++
+        [(reserveTxn, build db.latest reserveTxn),
+         (rewriteTxn db.latest db.latest.maxFrag,
+          build (build db.latest reserveTxn) (rewriteTxn db.latest db.latest.maxFrag))] }
   else db
 
 /-! ## the writers with their retry loop -/
